@@ -258,7 +258,7 @@ static std::string classify_crash(const std::string &err, int status) {
 		kind = "asan-" + err.substr(s, e - s);
 	} else if (WIFSIGNALED(status)) {
 		int sg = WTERMSIG(status);
-		if (sg == SIGALRM) return "hang";
+		if (sg == SIGALRM || sg == SIGPROF) return "hang";
 		kind = "signal-" + std::to_string(sg);
 	} else if (WIFEXITED(status)) {
 		kind = "exit-" + std::to_string(WEXITSTATUS(status));
@@ -280,6 +280,16 @@ static std::string classify_crash(const std::string &err, int status) {
 	return func.empty() ? kind : kind + "@" + func;
 }
 
+// Watchdog for one run: CPU time (independent of how loaded the machine is) with a generous wall-clock backstop for a
+// run that blocks in the kernel. A run of this suite takes milliseconds to a few seconds of CPU.
+static void watchdog(int cpu_s) {
+	struct itimerval it;
+	memset(&it, 0, sizeof it);
+	it.it_value.tv_sec = cpu_s;
+	setitimer(ITIMER_PROF, &it, nullptr);
+	alarm(cpu_s ? 10 * cpu_s : 0);
+}
+
 static int g_forked_runs = 0;
 static Result run_forked(const Plan &p, bool keep) {
 	Result r;
@@ -294,7 +304,8 @@ static Result run_forked(const Plan &p, bool keep) {
 	if (pid == 0) {
 		close(rd);
 		if (!getenv("SIM_LIVE")) dup2(efd, 2);
-		alarm(30);
+		signal(SIGPROF, SIG_DFL);
+		watchdog(30);
 		Result cr;
 		run_inproc(p, keep, cr);
 		std::string s = js::dump(result_to_json(cr));
@@ -616,9 +627,9 @@ int harness_main(int argc, char **argv, const Harness &h) {
 			}
 			Plan p = gen_plan(prop, tier, cls, run_seed(base, prop, idx));
 			Result r;
-			alarm(25);	// watchdog: a run that makes no simulator progress for 25 s of wall time kills the worker; the driver replays the seed
+			watchdog(25);	// a run that burns 25 s of CPU (or 250 s of wall time) kills the worker; the driver replays the seed
 			run_inproc(p, false, r);
-			alarm(0);
+			watchdog(0);
 			runs++;
 			steps += r.steps;
 			sim_s += r.sim_ns * 1e-9;
